@@ -1,6 +1,7 @@
 """C13 Diagnostics are sound and complete on the supported core language.
 
-1. harness `idedump` (real Analysis::diagnostics) and `coreast` (real parse trees -> CoreAst) are built;
+1. harness `idedump` (real Analysis::diagnostics) and `coreast` (real parse trees -> CoreAst; cross-check of the
+   CoreAst the extracted bridge unit computes from the texts inside Coq) are built;
 2. the Coq cone props/C13.vo is re-checked: per fault class the check of index.rs / bang_operator.rs that must
    fire (model in coq/model/{Scope,BangOps,Indexer}.v) emits the diagnostic of that class on the range of the
    site, and an emitted diagnostic is never lost (all programs); C13_sound is stated with the registered known
@@ -35,10 +36,19 @@ TRUSTED = [
     "hand-written model of index.rs / index/bang_operator.rs / symbol_map/typ.rs / handlers/diagnostics.rs in "
     "coq/model/{Scope,BangOps,Indexer}.v, tied to the code by the correspondence run of this check "
     "(diagnostics as (file, range, message class) multisets on well-formed programs and on every mutant)",
-    "parse errors are taken from the real parser (C04's subject) and passed to the model as ranges",
+    "parse errors (C04's subject) reach the model as ranges: those of the MODEL parser (bridge unit), required equal "
+    "(range and message) to those of the real parser on every workspace of the run",
     "message-class table lib/scopelib.py MSG_CLASSES (message text -> class)",
-    "bridge harness/src/bin/coreast.rs, observer harness/src/bin/idedump.rs, Coq extraction (ExtrOcamlBasic "
-    "only), OCaml driver coq/extract/scope_driver.ml",
+    "the CoreAst the model runs on is computed INSIDE Coq from the texts (group bridge: model lexer/parser over the "
+    "generated tables, coq/model/AstToCore.v through the generated accessor table coq/gen/GenAst.v, coq/model/Pipeline.v; "
+    "extracted unit `bridge`; theorems coq/props/Bridge.v) and is required, on EVERY workspace of the run (well-formed "
+    "programs and every mutant), to be character for character what the observer harness/src/bin/coreast.rs reads off "
+    "the REAL parse tree through the real typed accessors (a difference or a bridge unit that does not build is a "
+    "broken tie): coreast.rs is a cross-check, not part of the trusted base for Core programs; trusted instead: the "
+    "translators tools/translate/{t_tokens,t_lextables,t_unicode,t_lexer,t_grammar,t_ast}.py (re-run by this check; "
+    "tied to the code by C01/C02/C04/C15), the hand models of the 8 hand-written ast.rs methods in AstToCore.v, "
+    "coq/extract/bridge_driver.ml",
+    "observer harness/src/bin/idedump.rs, Coq extraction (ExtrOcamlBasic only), OCaml driver coq/extract/scope_driver.ml",
     "generator and fault seeder lib/tdgen.py (well-formedness by construction, audited with llvm-tblgen-14 on "
     "the programs that only use LLVM-14 features), this Python driver",
 ]
@@ -75,11 +85,11 @@ def llvm(exe, files, root, d):
     return rc, out
 
 
-def batches(bindir, exe, wss, offsets="none"):
+def batches(bindir, exe, wss, offsets="none", fails=None, stats=None):
     I, C, M = [], [], []
     for chunk in vlib.chunked(wss, 100):
         i = sl.impl(bindir, chunk, offsets=offsets)
-        c = sl.core(bindir, chunk)
+        c = sl.core_checked(bindir, chunk, fails if fails is not None else [], stats)
         m = sl.model(exe, c, chunk) if exe else [None] * len(chunk)
         I += i
         C += c
@@ -100,7 +110,7 @@ def diag_corr(i, c, m):
 def run(ctx):
     t0 = time.time()
     bindir = vlib.build_harness(False, bins=BINS)
-    fails = vlib.proof_step(ctx, "TG.Props.C13", THEOREMS, ["props/C13.vo"], TRUSTED, translators=[])
+    fails = vlib.proof_step(ctx, "TG.Props.C13", THEOREMS, ["props/C13.vo"], TRUSTED, translators=sl.BRIDGE_TRANSLATORS)
     try:
         exe = vlib.build_model("scope")
     except vlib.BuildError as ex:
@@ -109,7 +119,8 @@ def run(ctx):
     n = 80 if ctx.quick else 1500
     progs = [tdgen.generate(ctx.rng, size=ctx.rng.choice([2, 3, 5, 8] if ctx.quick else [3, 5, 8, 12])) for _ in range(n)]
     wss = [p.workspace() for p in progs]
-    I, C, M = batches(bindir, exe, wss)
+    bridge_stats = {}
+    I, C, M = batches(bindir, exe, wss, fails=fails, stats=bridge_stats)
     found = False
     broken = []
     feats, texts, nontrivial, samples = {}, set(), 0, []
@@ -142,7 +153,7 @@ def run(ctx):
     # ---- complete
     faults = [(p, f) for p in progs for f in tdgen.seed_faults(p, ctx.rng)]
     fws = [{"files": f.files, "root": p.root} for p, f in faults]
-    FI, FC, FM = batches(bindir, exe, fws)
+    FI, FC, FM = batches(bindir, exe, fws, fails=fails, stats=bridge_stats)
     per_class = {}
     fault_samples = []
     for (p, f), w, i, c, m in zip(faults, fws, FI, FC, FM):
@@ -260,6 +271,7 @@ def run(ctx):
         "fault_classes": per_class, "correspondence_cases": n_corr, "correspondence_disagreements": len(broken),
         "known_finding_family": {"cases": len(fam), "reproduced": kf_hit},
         "unknown_operand_family": len(unk),
+        "core_ast_from_texts_inside_coq": bridge_stats,
         "rule": "sound: generated well-formed Core programs have no diagnostic in any file; complete: one mutant per "
                 "fault class and program - a diagnostic of the class covering the seeded site in the seeded file and "
                 "none in untouched files; model == implementation on all of them",
@@ -283,7 +295,7 @@ def replay(ctx, path):
     bindir = vlib.build_harness(False, bins=BINS)
     exe = vlib.build_model("scope")
     i = sl.impl(bindir, [w], offsets="none")[0]
-    c = sl.core(bindir, [w])[0]
+    c = sl.core_checked(bindir, [w], [])[0]
     m = sl.model(exe, [c], [w])[0]
     for p, t in w["files"].items():
         print("--- %s\n%s" % (p, t))
